@@ -20,14 +20,29 @@ pub struct Case {
 }
 
 /// parse `bytes ++ suffix` and demand exactly (`m`, `suffix`)
-fn parse_back(m: &dlt_core::dlt::Message, bytes: &[u8], suffix: &[u8], storage: bool, kind: &str) -> Result<(), Violation> {
+fn parse_back(
+    m: &dlt_core::dlt::Message,
+    bytes: &[u8],
+    suffix: &[u8],
+    storage: bool,
+    kind: &str,
+) -> Result<(), Violation> {
     let mut buf = bytes.to_vec();
     buf.extend_from_slice(suffix);
-    let res = guard(|| dlt_message(&buf, None, storage).map(|(rest, pm)| (rest.len(), rest.as_ptr() as usize, pm)))
-        .map_err(|p| Violation::from_panic("dlt_message on serialised message", &p))?;
+    let res = guard(|| {
+        dlt_message(&buf, None, storage).map(|(rest, pm)| (rest.len(), rest.as_ptr() as usize, pm))
+    })
+    .map_err(|p| Violation::from_panic("dlt_message on serialised message", &p))?;
     match res {
         Ok((rest_len, rest_ptr, ParsedMessage::Item(m2))) => {
-            msg_eq_bits(m, &m2).map_err(|d| viol!(format!("roundtrip:{}:message-differs", kind), "parsed message differs from the original: {}\n  bytes={}", d, hex_short(bytes)))?;
+            msg_eq_bits(m, &m2).map_err(|d| {
+                viol!(
+                    format!("roundtrip:{}:message-differs", kind),
+                    "parsed message differs from the original: {}\n  bytes={}",
+                    d,
+                    hex_short(bytes)
+                )
+            })?;
             let end = buf.as_ptr() as usize + buf.len();
             if rest_len != suffix.len() || rest_ptr + rest_len != end {
                 return Err(viol!(
@@ -38,27 +53,43 @@ fn parse_back(m: &dlt_core::dlt::Message, bytes: &[u8], suffix: &[u8], storage: 
             }
             Ok(())
         }
-        Ok((_, _, other)) => Err(viol!(format!("roundtrip:{}:not-item", kind), "parser returned {:?} for a serialised message (bytes={})", other, hex_short(bytes))),
-        Err(e) => Err(viol!(format!("roundtrip:{}:error", kind), "parser failed with {:?} on a serialised message: {} (bytes={})", e, short_dbg(m), hex_short(bytes))),
+        Ok((_, _, other)) => Err(viol!(
+            format!("roundtrip:{}:not-item", kind),
+            "parser returned {:?} for a serialised message (bytes={})",
+            other,
+            hex_short(bytes)
+        )),
+        Err(e) => Err(viol!(
+            format!("roundtrip:{}:error", kind),
+            "parser failed with {:?} on a serialised message: {} (bytes={})",
+            e,
+            short_dbg(m),
+            hex_short(bytes)
+        )),
     }
 }
 
 pub fn check(c: &Case) -> CheckResult {
     let m = to_crate(&c.msg);
     let kind = c.msg.payload_kind();
-    let bytes = guard(|| m.as_bytes()).map_err(|p| Violation::from_panic("Message::as_bytes", &p))?;
+    let bytes =
+        guard(|| m.as_bytes()).map_err(|p| Violation::from_panic("Message::as_bytes", &p))?;
     let storage = c.msg.storage.is_some();
     // history independence: whatever was parsed before on this thread — here a damaged copy of the message (argument
     // count raised, last byte cut off) whose parse fails half-way — must not influence the result
     if c.suffix.len() % 3 == 1 {
         let mut damaged = bytes.clone();
         let s = if storage { 16 } else { 0 };
-        if c.msg.htyp & UEH != 0 && damaged.len() > s + crate::model::std_header_len(c.msg.htyp) + 2 {
+        if c.msg.htyp & UEH != 0 && damaged.len() > s + crate::model::std_header_len(c.msg.htyp) + 2
+        {
             let noar_at = s + crate::model::std_header_len(c.msg.htyp) + 1;
             damaged[noar_at] = damaged[noar_at].wrapping_add(1);
         }
         let _ = guard(|| dlt_message(&damaged, None, storage).map(|(r, _)| r.len()));
-        let _ = guard(|| dlt_message(&damaged[..damaged.len().saturating_sub(1)], None, storage).map(|(r, _)| r.len()));
+        let _ = guard(|| {
+            dlt_message(&damaged[..damaged.len().saturating_sub(1)], None, storage)
+                .map(|(r, _)| r.len())
+        });
     }
     // the same for the writer: an ill-formed message value (variable-info flag without a name, a name without the flag, a
     // value of another kind) serialised a moment ago on this thread must not influence how this one is written
@@ -71,7 +102,11 @@ pub fn check(c: &Case) -> CheckResult {
                         a.type_info.has_variable_info = !a.type_info.has_variable_info;
                     }
                     1 => {
-                        a.name = if a.name.is_some() { None } else { Some("n".to_string()) };
+                        a.name = if a.name.is_some() {
+                            None
+                        } else {
+                            Some("n".to_string())
+                        };
                     }
                     _ => {
                         a.value = dlt_core::dlt::Value::Bool(1);
@@ -80,7 +115,8 @@ pub fn check(c: &Case) -> CheckResult {
             }
         }
         let _ = guard(|| bad.as_bytes().len());
-        let again = guard(|| m.as_bytes()).map_err(|p| Violation::from_panic("Message::as_bytes", &p))?;
+        let again =
+            guard(|| m.as_bytes()).map_err(|p| Violation::from_panic("Message::as_bytes", &p))?;
         if again != bytes {
             return Err(viol!(
                 format!("roundtrip:{}:writer-history", kind),
@@ -92,6 +128,25 @@ pub fn check(c: &Case) -> CheckResult {
     } else {
         bytes
     };
+    // and a well-formed neighbour: the same message in the other byte order, serialised right after this one on the same
+    // thread, must round-trip as well and must not change how this one is written afterwards
+    if c.suffix2.len() % 2 == 1 {
+        let mut twin_model = c.msg.clone();
+        twin_model.htyp ^= MSBF;
+        let twin = to_crate(&twin_model);
+        let tb = guard(|| twin.as_bytes())
+            .map_err(|p| Violation::from_panic("Message::as_bytes", &p))?;
+        parse_back(&twin, &tb, &c.suffix, storage, kind)?;
+        let again =
+            guard(|| m.as_bytes()).map_err(|p| Violation::from_panic("Message::as_bytes", &p))?;
+        if again != bytes {
+            return Err(viol!(
+                format!("roundtrip:{}:writer-history", kind),
+                "the same message serialises differently after its other-byte-order twin was serialised on this thread: {} vs {}",
+                hex_short(&again), hex_short(&bytes)
+            ));
+        }
+    }
     parse_back(&m, &bytes, &c.suffix, storage, kind)?;
     if c.suffix2 != c.suffix {
         parse_back(&m, &bytes, &c.suffix2, storage, kind)?;
@@ -103,7 +158,16 @@ pub fn check(c: &Case) -> CheckResult {
 }
 
 pub fn strategy() -> impl Strategy<Value = Case> {
-    (g::message(g::MsgParams::default()), g::suffix(), g::suffix()).prop_map(|(msg, suffix, suffix2)| Case { msg, suffix, suffix2 })
+    (
+        g::message(g::MsgParams::default()),
+        g::suffix(),
+        g::suffix(),
+    )
+        .prop_map(|(msg, suffix, suffix2)| Case {
+            msg,
+            suffix,
+            suffix2,
+        })
 }
 
 pub fn run(run: &Run) {
@@ -114,7 +178,13 @@ pub fn run(run: &Run) {
     );
     run.assume("generator soundness: ids <= 4 bytes without NUL, names/units/strings without NUL, value variant matches type info, NOAR/verbose/LEN consistent (DESIGN.md 3.1)");
     run.regressions(&replay);
-    run.random("roundtrip", run.cases(300_000, 4_000_000), 0.3, strategy, check);
+    run.random(
+        "roundtrip",
+        run.cases(300_000, 4_000_000),
+        0.3,
+        strategy,
+        check,
+    );
 }
 
 pub fn replay(_section: &str, case: &Json) -> Option<CheckResult> {
